@@ -2,7 +2,9 @@
 # Re-run every seeded change against the checks that are recorded as catching it (seeded/<id>/meta.json:
 # detected_by), on a scratch worktree of /repo HEAD.  Prints one line per seeded change.
 cd /verif || exit 2
-for d in seeded/C*/; do
+# optional arguments: seeded ids to restrict the run to
+list=""; if [ $# -gt 0 ]; then for a in "$@"; do list="$list seeded/$a/"; done; else list=$(echo seeded/C*/); fi
+for d in $list; do
   id=$(basename "$d")
   read -r prop only < <(python3 - "$d" <<'P'
 import json, re, sys
